@@ -111,6 +111,11 @@ def Facts.soundList (F : Facts) : List Bool :=
     F.deferMessageLock != F.helloLock, F.deferMessageLock != F.sendLock, F.helloLock != F.sendLock,
     -- closeConnection looks at c.conn again after the bye; undecodable frames are skipped
     F.closeRechecksConn, F.readPumpSkipsUndecodable,
+    -- nor in the handlers or the helpers they call (map entries / interface values of decoded JSON)
+    F.handlerUncheckedAsserts == 0,
+    -- every loop the read loop runs is a `range` (bounded by construction), and the pending messages are sent
+    -- from a snapshot of the queue: a failed write re-queues, a loop over the live queue would never end
+    F.unboundedLoops.isEmpty, F.flushOverSnapshot,
     -- the Go handlers dereference nothing the model does not know about, and all of it is covered
     F.derefs.all (fun d => modelDerefs.contains d), F.derefs.all F.covers ]
 
@@ -133,7 +138,7 @@ def judge (opKind : String) (impl : List String) : String :=
   let line := Proto.joinToks impl
   if impl.isEmpty then "na"
   else if Proto.hasPrefix "fail:" line || line = "bad-op" || line = "no-conn" || line = "session-gone" then "na"
-  else if containsStr line "deadlock" then "violated:stall:federation-client-deadlocked"
+  else if containsStr line "deadlock" || containsStr line "spin:" then "violated:stall:federation-client-deadlocked"
   else if containsStr line "stuck" then "violated:stall:no-progress"
   else if containsStr line "stalled" then "violated:stall:hub-blocked"
   else if opKind = "probe" then
